@@ -959,6 +959,39 @@ func (rf *Ref) storeInPlace(root Expr, val float64) bool {
 				}
 			}
 		}
+	case Index:
+		// an element of a container held by a variable, at a literal position
+		if !purePlace(t.Root) {
+			return false
+		}
+		switch t.Idx.(type) {
+		case Num, Str:
+		default:
+			return false
+		}
+		root, e := rf.eval(t.Root)
+		if e != nil {
+			return false
+		}
+		idx, e := rf.eval(t.Idx)
+		if e != nil {
+			return false
+		}
+		return rf.indexSet(root, idx, val) == nil
+	}
+	return false
+}
+
+// purePlace: a variable, or an element at a literal position of a pure place
+func purePlace(e Expr) bool {
+	switch t := e.(type) {
+	case Var:
+		return true
+	case Index:
+		switch t.Idx.(type) {
+		case Num, Str:
+			return purePlace(t.Root)
+		}
 	}
 	return false
 }
